@@ -42,6 +42,10 @@ func ResolveRef(root interface{}, ref *Ref) (*Schema, error) {
 	case Schema:
 		return &sch, nil
 	case *Schema:
+		if sch == nil {
+			// an unset member of a typed root (e.g. "not"): there is nothing there
+			break
+		}
 		return sch, nil
 	case map[string]interface{}:
 		newSch := new(Schema)
